@@ -148,6 +148,10 @@ func writeFanOut(r *hx.Rng) []hx.Zs {
 }
 
 func gen(r *hx.Rng, tier string, i int) []hx.Zs {
+	if i%7 == 5 {
+		// two peers that cannot be told apart by address delete their own and each other's subscriptions
+		return stack.Twins(r, false)
+	}
 	if i%4 == 3 {
 		return writeFanOut(r)
 	}
